@@ -22,6 +22,7 @@ SAT, WIP, NOT = (constants.INBOUND_CRITERIA_SATISFIED, constants.INBOUND_CRITERI
 # get_inbound_criteria_status
 # ================================================================================================
 class InboundCriteria(Unit):
+    bounded = True
     name = "C.get_inbound_criteria_status"
     functions = ["orquesta.conducting.WorkflowConductor.get_inbound_criteria_status",
                  "orquesta.conducting.WorkflowConductor.get_task_state_entry"]
@@ -194,6 +195,7 @@ class MakeTaskResult(Unit):
 # setup_retry_in_task_state / add_task_state
 # ================================================================================================
 class SetupRetry(Unit):
+    bounded = True
     name = "C.add_task_state"
     functions = ["orquesta.conducting.WorkflowConductor.add_task_state",
                  "orquesta.conducting.WorkflowConductor.setup_retry_in_task_state",
@@ -305,6 +307,7 @@ class SetupRetry(Unit):
 # request_workflow_status
 # ================================================================================================
 class RequestWorkflowStatus(Unit):
+    bounded = True
     name = "C.request_workflow_status"
     functions = ["orquesta.conducting.WorkflowConductor.request_workflow_status",
                  "orquesta.conducting.WorkflowState.get_tasks_by_status",
